@@ -46,7 +46,17 @@ def run_ceiling(case, ctx, mon):
     hit = est(s) == CAP
     for how, v in steps:
         before = est(s)
-        if how == "add":
+        if how == "ngram":
+            # one more occurrence delivered by add_ngram inside a longer record (the other window must not share a cell)
+            v = 1
+            other = key[1:] + b"\xf7"
+            pr = state.Prober(cfg)
+            if len(key) >= 1 and all(a != b for a, b in zip(pr.cells(key if fam == "linear" else key[:8]), pr.cells(other if fam == "linear" else other[:8]))):
+                mon.api(s.add_ngram, key + b"\xf7", len(key))
+                mon.count(f"ceiling_steps_via_add_ngram:{fam}")
+            else:
+                mon.api(s.add, key, 1)
+        elif how == "add":
             mon.api(s.add, key, v)
         else:
             o = state.make(cfg)
@@ -72,7 +82,7 @@ def run_ceiling(case, ctx, mon):
 def run_monotone(case, ctx, mon):
     cfg = case["cfg"]
     kind = cfg["kind"]
-    real = [state.make(cfg), state.make(cfg)]
+    real = [state.make(cfg) for _ in range(case.get("n", 2))]
     universe = ops.universe_of([e[1] for e in case["events"] if isinstance(e[0], int)], extra=[unhx(k) for k in case["strangers"]])
     q = (lambda s_, k: float(s_.query(k))) if kind != "hh" else None
     at_ceiling = False
@@ -96,6 +106,51 @@ def run_monotone(case, ctx, mon):
         mon.tick("no-add-or-merge-lowers-an-estimate", len(universe))
     mon.count(f"monotone_histories:{kind}")
     mon.nontrivial(at_ceiling)
+
+
+def run_row_asymmetric(case, ctx, mon):
+    """A cell overflows in one particular row only: two keys that share a counter in row r but in no other row are brought to
+    just under the ceiling by merges, then pushed over it by a third sketch.  Whichever row it is, the counter must saturate."""
+    w, d, r = case["width"], case["depth"], case["row"]
+    cfg = {"kind": "linear", "width": w, "depth": d}
+    pr = state.Prober(cfg)
+    rng = np.random.default_rng(case["seed"])
+    found = None
+    keys = [bytes(rng.integers(0, 256, 4, dtype=np.uint8)) for _ in range(60)]
+    cells = [pr.cells(k) for k in keys]
+    for i in range(len(keys)):
+        for j in range(i):
+            same = [cells[i][x] == cells[j][x] for x in range(d)]
+            if same[r] and sum(same) == 1:
+                found = (keys[i], keys[j])
+                break
+        if found:
+            break
+    if not found:
+        mon.count("row_asymmetric_not_constructible")
+        return
+    k1, k2 = found
+    a, b, c = state.make(cfg), state.make(cfg), state.make(cfg)
+    v1, v2, v3 = case["values"]
+    a.add(k1, v1)
+    b.add(k2, v2)
+    c.add(pick(rng, [k1, k2]), v3)
+    col = pr.cells(k1)[r]
+    total = v1
+    for other, add, tag in ((b, v2, "merge b"), (c, v3, "merge c"), (c, v3, "merge c again")):
+        before = {k: int(a.query(k)) for k in (k1, k2)}
+        mon.api(a.merge, other)
+        total += add
+        for k in (k1, k2):
+            got = int(a.query(k))
+            mon.check(got >= before[k], "no-add-or-merge-lowers-an-estimate", kind="linear", key=hx(k), before=before[k], after=got, step=tag, cfg=cfg, row=r,
+                      values=case["values"])
+        cell = int(a.cms[r, col])
+        mon.check(cell == min(CAP, total), "shared-cell-holds-min(sum,cap)-in-its-row", row=r, cell=cell, want=min(CAP, total), step=tag, cfg=cfg,
+                  values=case["values"])
+    mon.count("row_asymmetric_cases")
+    mon.seen("row_asymmetric_row", r)
+    mon.nontrivial(v1 + v2 + v3 >= CAP)
 
 
 # ------------------------------------------------------------------------------------------ (c)
@@ -163,9 +218,15 @@ def gen_cases(ctx):
         for off in range(0, 4):
             for v in (0, 1, 2, 3, 4, 7, CAP - 1, CAP, CAP + 1, 2**32 + 3, 2**40):
                 for how in ("add", "merge"):
-                    steps = [[how, v], [pick(rng, ["add", "merge"]), pick(rng, [0, 1, 3, CAP, 2**33])], ["add", 1], ["merge", 2]]
+                    steps = [[how, v], [pick(rng, ["add", "merge", "ngram"]), pick(rng, [0, 1, 3, CAP, 2**33])], ["add", 1], ["ngram", 1], ["merge", 2],
+                             ["ngram", 1]]
                     cases.append({"type": "ceiling", "family": fam, "start": CAP - off - (3 if rng.random() < 0.5 else 0), "steps": steps,
-                                  "key": hx(rand_key(rng, 0, 8)), "width": int(rng.integers(1, 6)), "depth": int(rng.integers(1, 4))})
+                                  "key": hx(rand_key(rng, 1, 8)), "width": 64, "depth": int(rng.integers(1, 4))})
+    for r in range(4):
+        for vals in ((2**31, 2**31 - 10, 100), (CAP // 2, 2**31 - 10, 12), (2**31 - 10, 2**31 - 10, 2**31), (CAP - 5, 3, 7), (2**30, 2**31, 2**30 + 5)):
+            for d in (r + 1, 4):
+                if d > r:
+                    cases.append({"type": "rowasym", "width": pick(rng, [2, 3, 5]), "depth": d, "row": r, "values": list(vals), "seed": int(rng.integers(0, 2**31))})
     for kind in ("log8", "log16"):
         for mc in MC:
             for nr in NR[kind]:
@@ -182,16 +243,18 @@ def gen_cases(ctx):
             cfg.update(max_count=pick(rng, [70000, 10**5]), num_reserved=pick(rng, [0, 100, 1023]))
         keys = key_family(rng, 5, 0, 6)
         evs = []
+        nsk = 3
         for _ in range(int(rng.integers(5, 30))):
-            if rng.random() < 0.2:
-                a = int(rng.integers(0, 2))
-                evs.append(["merge", a, 1 - a])
+            if rng.random() < 0.25:
+                a = int(rng.integers(0, nsk))
+                b = (a + 1 + int(rng.integers(0, nsk - 1))) % nsk
+                evs.append(["merge", a, b])
             elif kind == "linear":
-                evs.append([int(rng.integers(0, 2)), ops.gen_op(rng, keys, big=0.4, zero=0.05)])
+                evs.append([int(rng.integers(0, nsk)), ops.gen_op(rng, keys, big=0.5, zero=0.05)])
             else:
-                evs.append([int(rng.integers(0, 2)), ops.gen_op(rng, keys, max_value=(4000 if kind == "log8" else 30000), big=0.0, zero=0.05)
+                evs.append([int(rng.integers(0, nsk)), ops.gen_op(rng, keys, max_value=(4000 if kind == "log8" else 30000), big=0.0, zero=0.05)
                             if rng.random() < 0.7 else ["add", hx(keys[0]), int(cfg["max_count"])]])
-        cases.append({"type": "monotone", "cfg": cfg, "events": evs, "strangers": [hx(rand_key(rng, 0, 5))]})
+        cases.append({"type": "monotone", "cfg": cfg, "events": evs, "strangers": [hx(rand_key(rng, 0, 5))], "n": nsk})
     for i, c in enumerate(cases):
         if q or i % ns == sh:
             yield c
@@ -206,7 +269,7 @@ def gen_cases(ctx):
 
 
 def run_case(case, ctx, mon):
-    {"ceiling": run_ceiling, "monotone": run_monotone, "logcfg": run_logcfg}[case["type"]](case, ctx, mon)
+    {"ceiling": run_ceiling, "monotone": run_monotone, "logcfg": run_logcfg, "rowasym": run_row_asymmetric}[case["type"]](case, ctx, mon)
 
 
 def run(ctx, mon):
@@ -221,6 +284,10 @@ def floors(mon, ctx):
     for fam in ("linear", "hh"):
         mon.floor(f"landings around the ceiling ({fam})", len(mon.classes[f"landing:{fam}"]), 7)
         mon.floor(f"steps after saturation ({fam})", mon.counters[f"steps_after_saturation:{fam}"], 50)
+    for fam in ("linear", "hh"):
+        mon.floor(f"ceiling steps delivered through add_ngram ({fam})", mon.counters[f"ceiling_steps_via_add_ngram:{fam}"], 20)
+    mon.floor("row-asymmetric overflow cases", mon.counters["row_asymmetric_cases"], 20)
+    mon.floor("rows in which the overflow was placed", len(mon.classes["row_asymmetric_row"]), 4)
     mon.floor("log configurations constructed", mon.counters["log_configs_accepted"] + mon.counters["log_configs_rejected_with_ValueError"], 100)
     mon.floor("log configurations accepted", mon.counters["log_configs_accepted"], 60)
     for kind in ("log8", "log16"):
